@@ -21,9 +21,15 @@ def modelrun_lines(cmd, lines, timeout=900):
 
 def gen_aliases(rng):
     al = {}
-    for i in range(rng.randrange(0, 6)):
-        # later aliases may be built from earlier ones (chains)
-        t = gen_types.gen_type(rng, rng.randrange(0, 3), 3)
+    for i in range(rng.randrange(0, 7)):
+        if al and rng.random() < 0.55:
+            # built from an earlier alias (chains, composites over aliases): the XML then mentions the earlier alias BY NAME, so how and
+            # when a name is resolved (lazily, after alias_ext.xml has been read) matters
+            e = al[rng.choice(sorted(al))]
+            t = rng.choice([('array', e, None), ('array', e, 2), ('dict', (('a', e), ('b', ('u', 1))), False), ('dict', (('k', ('u', 2)), ('v', e)), True),
+                            ('user', e), e])
+        else:
+            t = gen_types.gen_type(rng, rng.randrange(0, 3), 3)
         al['AL%d' % i] = t
     return al
 
@@ -197,6 +203,35 @@ def run_generated(ctx, ncases, depth, allow_huge):
     return first_corr
 
 
+def long_case(kind, n, hdr=1):
+    """(type tree, wire bytes, expected lib_decode answer) for a variable-length leaf of n bytes followed by three more bytes"""
+    t = {'str': ('string',), 'blob': ('blob',), 'py': ('python',)}[kind]
+    data = b'A' * n
+    wire = b'\xff' + n.to_bytes(3, 'little') + data + b'\x01\x02\x03'
+    exp = 'OK %s%s 3' % ('s' if kind == 'str' else 'b', data.hex())
+    return t, wire, exp
+
+
+def long_lengths(ctx):
+    """the packed length at the top of its 3-byte range (sign bit of a 24-bit / shifted 32-bit read): library against the statement's
+    encoding, with bytes following so that over- and under-consumption both show"""
+    lens = [2 ** 23, 2 ** 24 - 1] if ctx.tier == 'quick' else [2 ** 23 - 1, 2 ** 23, 2 ** 23 + 1, 2 ** 24 - 2, 2 ** 24 - 1]
+    lib = impl.LibTypes()
+    try:
+        for kind in ('str', 'blob', 'py'):
+            for n in lens:
+                t, wire, exp = long_case(kind, n)
+                got = impl.lib_decode(lib.make(t), wire, 1)
+                ctx.case(('long-length', kind, n)); ctx.count('long-length:%s' % kind)
+                if got != exp:
+                    ctx.deviation('long-length', dict(kind=kind, n=n),
+                                  dict(kind='decode-long', leaf=kind, length=n, wire='ff + 3-byte little-endian length + %d x 0x41 + 010203' % n,
+                                       expected='the %d bytes and 3 bytes left' % n, implementation=got[:120] + ('...' if len(got) > 120 else ''),
+                                       how='decode that leaf type from that wire with the library; it must return the value and leave exactly the 3 trailing bytes'))
+                    return
+    finally: lib.close()
+
+
 def run(ctx):
     ctx.rule = ('generated (type tree, value, header size, trailing bytes) encoded by the extracted SPEC encoder; non-trivial = composite type, '
                 'variable-length leaf or trailing bytes present; distinct by (type, value, hdr, rest length); malformed mutations are counted '
@@ -205,6 +240,7 @@ def run(ctx):
     gen_const.instance_obligations(ctx, 'C03', which=('types',))
     n = 6000 if ctx.tier == 'quick' else 60000
     first_corr = run_generated(ctx, n, 6, allow_huge=True)
+    long_lengths(ctx)
     recordings.payload_check(ctx, 'C03', quick_n=3)
     if first_corr and not ctx.violations:
         # the model no longer describes the code: search was the full generator budget above
@@ -221,4 +257,11 @@ def replay(ctx, path):
         finally: lib.close()
         print('expected (spec):', obj['expected']); print('model          :', m); print('implementation :', got)
         return 0 if got == obj['expected'] else 1
+    if obj.get('kind') == 'decode-long':
+        t, wire, exp = long_case(obj['leaf'], obj['length'])
+        lib = impl.LibTypes()
+        try: got = impl.lib_decode(lib.make(t), wire, 1)
+        finally: lib.close()
+        print('implementation :', got[:120]); print('expected       :', exp[:120])
+        return 0 if got == exp else 1
     print(json.dumps(obj, indent=1)); return 1
